@@ -216,10 +216,10 @@ def _configure():
     NR_MEM = "core/src/inmemory.rs: locking (Mutex) is not modelled (A3)"
     cfg("C01", "proof", ["A1", "A2", "A4", "A6", "A8", "A11", "A13"], assumptions=[A["A1"], A["A8"]], not_reached=[NR_SQL, NR_MEM],
         explanation="chain_wf (one unbranched chain, child index = inverse of parent links, no orphans, snapshot on chain) is an invariant: preserved by every contracted operation (av.inv, snap.inv, read-only clauses), the storage preconditions that protect it are discharged at every call site (st.*.pre), and the history lemmas (unit L) lift it to all finite histories and to the walk from the base",
-        legs=[EXPLORE, INTERLEAVE, SQLCONF, HTTP])
+        legs=[EXPLORE, INTERLEAVE, SQLCONF, HTTP, XCHECK])
     cfg("C02", "proof", ["A1", "A4", "A6", "A8", "A11", "A12", "A13"], assumptions=[A["A1"], A["A8"]], not_reached=[NR_SQL, NR_HTTP],
         explanation="postconditions av.accept_iff / av.accepted_state / av.rejected / av.id_from_v4 / av.ack_after_commit of the real Server::add_version, for every abstract pre-state satisfying chain_wf, every parent id, payload and placement of storage faults; enc.av for the HTTP entry point",
-        legs=[EXPLORE, SQLCONF, HTTP, INTERLEAVE])
+        legs=[EXPLORE, SQLCONF, HTTP, INTERLEAVE, XCHECK])
     cfg("C03", "proof", ["A3", "A4", "A5", "A13"], assumptions=[A["A3"], A["A5"], "the reduction from interleavings to the three sequential obligations O1-O3 is a paper argument (DESIGN.md 5.C03), not machine-checked"],
         not_reached=["lock-wait budget / busy timeouts; anything inside SQLite or Mutex; partial overlap inside a transaction is excluded by A3/A5, not checked", NR_SQL],
         explanation="three sequential obligations: O1 every Server operation uses exactly one transaction opened for its own client (E9 twin + may_open); O2 every storage precondition in a handler is established inside the same transaction (Server::txn returns an arbitrary invariant-satisfying state); O3 effects reach durable state only through one commit and success is reported only after it",
@@ -236,22 +236,22 @@ def _configure():
         legs=[EXPLORE, SQLCONF])
     cfg("C08", "proof", ["A4", "A6", "A11", "A13"], not_reached=[NR_SQL, NR_HTTP],
         explanation="gcv.found / gcv.split / gcv.nosuch of the real Server::get_child_version share the spec fn accept() with av.accept_iff of Server::add_version",
-        legs=[EXPLORE])
+        legs=[EXPLORE, XCHECK])
     cfg("C09", "proof", ["A2", "A4", "A9", "A13"], not_reached=[NR_SQL, NR_MEM, "header parsing by actix"],
         explanation="frame clauses: every storage write is a whole-database equation cur' = cur[client := n]; every Server operation changes at most its own client's durable state (*.frame) through a transaction opened for its own id (E9 twin); the client id comes only from the header (hdr.ok); two-run lemma L.isolation",
         legs=[EXPLORE, SQLCONF])
     cfg("C10", "proof", ["A4", "A6", "A10", "A11", "A13"], not_reached=[NR_SQL],
         explanation="acceptance predicate snap_should_accept written from the statement (literal 5; corner v = non-nil base left free); loop invariant of the bounded walk; declined => untouched; success either way",
-        legs=[EXPLORE, SQLCONF])
+        legs=[EXPLORE, SQLCONF, XCHECK])
     cfg("C11", "proof", ["A4", "A6", "A13"], not_reached=[NR_SQL, "schedules (AddSnapshot overlapping GetSnapshot) only via C03's reduction"],
         explanation="gs.pair / gs.none (id and bytes of the stored snapshot, both written by one set_snapshot call: snap.applied), chain_wf's snapshot conjunct (snapshot version on the chain or its base) preserved by every operation, walk lemma L.snap_base",
-        legs=[EXPLORE, SQLCONF])
+        legs=[EXPLORE, SQLCONF, XCHECK])
     cfg("C12", "proof", ["A7", "A8", "A10", "A12", "A13"], assumptions=[A["A7"], A["A8"]], not_reached=[NR_SQL, "the wall clock (A10)", "configuration wiring in main (C17)"],
         explanation="threshold functions equal floor(3t/2)/t spec for ALL targets without overflow (Verus over all i64/u32), urgency = max of both from the pre-request record (av.urgency), counter bumped by add_version_spec and reset by new_snap (storage contract)",
-        legs=[EXPLORE, KANI_URGENCY, SQLCONF, STANDINS])
+        legs=[EXPLORE, KANI_URGENCY, SQLCONF, STANDINS, XCHECK])
     cfg("C13", "exploration", ["A13"], not_reached=["the SQLite side is ONLY bounded; proved part: server.rs never calls storage outside the documented preconditions (st.*.pre call-site obligations) and the contract is functional"],
         explanation="bounded: the same executable contract is the oracle for all three backend configurations (in-memory, SQLite, SQLite re-opened before every request), so equal histories give equal responses up to ids/clock",
-        legs=[EXPLORE, SQLCONF])
+        legs=[EXPLORE, SQLCONF, XCHECK])
     cfg("C14", "proof", ["A9", "A11", "A13"], assumptions=[A["A9"]], not_reached=[NR_HTTP],
         explanation="enc.* postconditions of the four real handlers and server_error_to_actix / failure_to_ise: for EVERY possible library outcome the status, exact header list, content type and body are as the statement says (relative to the actix stand-ins)",
         legs=[HTTP, STANDINS])
@@ -267,11 +267,35 @@ def _configure():
         legs=[HTTP, STANDINS])
     cfg("C18", "proof", ["A4", "A6", "A11", "A13"], not_reached=[NR_SQL],
         explanation="every non-mutating outcome (reads, conflict, declined snapshot, unknown client, refused request) leaves the whole transaction view / call log equal up to the fault counter",
-        legs=[EXPLORE, SQLCONF])
+        legs=[EXPLORE, SQLCONF, XCHECK])
 
 
 KANI_URGENCY = {"name": "kani:urgency", "tiers": ("quick", "thorough"), "run": lambda prop, tier, seed: kani_urgency(), "required": False}
 HTTP = bounded("http", "requests through the real actix handlers (in process): outcome encoding compared with the executable contract, body chunkings and sizes, malformed requests, allow-lists, Cache-Control")
+
+
+def oracle_xcheck():
+    """thorough tier: the executable oracle of the bounded legs (conform/src/model.rs) is cross-checked against the Verus
+    specification functions it restates, on sampled concrete states (unit X)."""
+    import vrun as _v
+    conform_build()
+    p = subprocess.run([CONFORM_BIN, "xcheck-gen"], capture_output=True, text=True, timeout=300)
+    if p.returncode != 0:
+        raise Inconclusive("xcheck-gen failed: " + p.stderr[-300:])
+    os.makedirs(_v.GEN, exist_ok=True)
+    open(os.path.join(VERIF, "gen", "xsamples.rs"), "w").write(p.stdout)
+    m = re.search(r"(\d+) facts", p.stdout[:200])
+    r = _v.run_verus("x")
+    bad = [d for d in r["diags"]]
+    rep = {"name": "oracle-xcheck", "bounded": True, "status": "passed" if (r["success"] and not bad) else "disagreement",
+           "what": "translation validation by sampling of the hand-written oracle: concrete client states (chains of 0-7 versions, nil / non-nil base, snapshot at several positions) with the values conform/src/model.rs computes for back, accept, gcv_spec, snap_should_accept, snap_corner and urgency_spec, emitted as Verus proof fns over the real spec functions",
+           "facts": int(m.group(1)) if m else None, "proof_fns_verified": r.get("verified"), "wall_s": round(r["wall_s"], 1), "violations": []}
+    if rep["status"] != "passed":
+        raise Inconclusive("the executable oracle and the Verus specification disagree (or a sample proof needs a hint): %s" % (bad[0]["rendered"][:300] if bad else r.get("stderr_tail", "")[-300:]))
+    return rep
+
+
+XCHECK = {"name": "oracle-xcheck", "tiers": ("thorough",), "run": lambda prop, tier, seed: oracle_xcheck(), "required": True}
 
 
 def kani_urgency():
